@@ -54,6 +54,8 @@ def build(lib: SpecLib, F):
 
 
 def contracts(unit, im, f):
+    if im is None:
+        return None
     st, self_ref = base_type(im.selfty)
     if not re.fullmatch(r'Point[1-3]', st):
         return None
